@@ -184,21 +184,28 @@ def _range(chk, ctx) -> None:
     mn, mx = sp('self.min_completion_betting_or_raising_to_amount'), sp('self.max_completion_betting_or_raising_to_amount')
     amt = ('name', 'amount')
     ok_low = ok_high = ok_default = ok_ret = False
+    stray = []
     for p in ctx.paths(fi):
         cs = conds_of(p)
         is_none = T.cmp('Is', amt, ('const', None)) in cs
         a = mn if is_none else amt
         if p.raised:
-            if T.cmp('Lt', a, mn) in cs and not is_none:
-                ok_low = True
-            if T.cmp('Gt', a, mx) in cs and T.mk_not(T.cmp('Lt', a, mn)) in cs and not is_none:
-                ok_high = True
+            low = T.cmp('Lt', a, mn) in cs and not is_none
+            high = T.cmp('Gt', a, mx) in cs and T.mk_not(T.cmp('Lt', a, mn)) in cs and not is_none
+            ok_low |= low
+            ok_high |= high
+            if not (low or high) and not is_none:
+                stray.append('an amount is refused for a reason other than being below the minimum or above the maximum')
         elif p.returned:
             r = canon_actor(unversion(p.outcome[1]))
             if is_none:
                 ok_default = r == mn
             else:
-                ok_ret = r == amt and T.mk_not(T.cmp('Lt', amt, mn)) in cs and T.mk_not(T.cmp('Gt', amt, mx)) in cs
+                good = r == amt and T.mk_not(T.cmp('Lt', amt, mn)) in cs and T.mk_not(T.cmp('Gt', amt, mx)) in cs
+                ok_ret |= good
+                if not good:
+                    stray.append('an amount is accepted on a path that did not compare it with both the minimum and the maximum')
+    ok_ret = ok_ret and not stray
     first = fi.body[0] if fi.body else None
     pre = isinstance(first, ast.Expr) and isinstance(first.value, ast.Call) and self_attr(first.value.func) == '_verify_completion_betting_or_raising'
     chk.ob('C03.S7', f'State.{name}', ok_low and ok_high and ok_default and ok_ret and pre, fi.loc,
